@@ -118,7 +118,7 @@ def run(tier: str, seed: int) -> int:
     ntr = 120 if tier == "quick" else 2500
     traces = random_record_traces(rng, ntr, families=("time", "time", "basic"), steps=25)
     validate_traces(chk, traces, site="random-time-history")
-    canary_trace(chk, traces[0])
+    canary_trace(chk, traces)
     return chk.finish()
 
 
